@@ -234,11 +234,15 @@ pub struct Assertion {
     pub expr: Located<Expression>,
     pub snapshot: SymbolSnapshot,
     pub failure_message: Option<String>,
+    /// The segment the assertion stands in (a test only sees the assertions of its own bank)
+    pub segment: Option<Identifier>,
 }
 
 pub struct Trace {
     pub exprs: Vec<Located<Expression>>,
     pub snapshot: SymbolSnapshot,
+    /// The segment the trace stands in
+    pub segment: Option<Identifier>,
 }
 
 impl CodegenContext {
@@ -297,6 +301,10 @@ impl CodegenContext {
 
     pub fn tree(&self) -> &Arc<ParseTree> {
         &self.tree
+    }
+
+    pub fn test_elements(&self) -> &[TestElement] {
+        &self.test_elements
     }
 
     pub fn remove_test_elements(&mut self) -> Vec<TestElement> {
@@ -633,6 +641,7 @@ impl CodegenContext {
                         expr: value.clone(),
                         snapshot: extracted_evaluator,
                         failure_message: interpolated_failure_message,
+                        segment: self.current_segment.clone(),
                     }));
                 }
             }
@@ -1319,6 +1328,7 @@ impl CodegenContext {
                     self.test_elements.push(TestElement::Trace(Trace {
                         exprs,
                         snapshot: extracted_evaluator,
+                        segment: self.current_segment.clone(),
                     }));
                 }
             }
